@@ -70,6 +70,8 @@ type input struct {
 	MaxFlushes  int       `json:"maxflushes"`
 	Exp         [4]int64  `json:"exp"` // counter, timer, gauge, set expiry interval (ns; 0 = never)
 	HistLimit   int       `json:"histlimit"` // aggregator histogram bucket limit
+	SlowShard   int       `json:"slowshard"`
+	SlowMicros  int       `json:"slowus"` // > 0: worker SlowShard sleeps this long in every ReceiveMap
 	Sched       uint64    `json:"sched"`
 	Batches     [][]dgram `json:"batches,omitempty"`
 	// agg
